@@ -1,16 +1,18 @@
 SPECIFICATION Spec
 CONSTANTS
-  P = 5
-  MaxCells = 3
+  P = 3
+  MaxCells = 4
   MaxD = 2
   AllowEmptyBd = TRUE
-  WithReps = FALSE
+  WithReps = TRUE
   Mode = "insert"
 VIEW View
 INVARIANT InvWellFormed
 INVARIANT InvPartition
 INVARIANT InvVineLemma
 INVARIANT InvSwapWellFormed
+INVARIANT InvRepsExist
+INVARIANT InvAliveIsBetti
 INVARIANT EmitState
 ACTION_CONSTRAINT EmitEdge
 CHECK_DEADLOCK FALSE
